@@ -102,3 +102,9 @@ pub fn parse_board(s: &str) -> Option<Board> {
     let ep = if f[10] == "-" { None } else { Some(f[10].parse::<u8>().ok()?) };
     board_from_raw(pcs, white, black, side, mask, ep, f[11].parse().ok()?, f[12].parse().ok()?)
 }
+
+pub fn sorted_moves(ms: &[Move]) -> String {
+    let mut v: Vec<String> = ms.iter().map(mv_text).collect();
+    v.sort();
+    v.join(" ")
+}
